@@ -22,6 +22,7 @@ def tasks(tier):
     t = [(S, "eigh_finite", {}), (S, "eigh_formula", {}), (S, "fock", dict(kind="rhf")), (S, "fock", dict(kind="uhf")), (S, "opt_orth", {}), (S, "canary", {})]
     for k in ("rhf", "uhf"):          # the density carried to the next SCF iteration (all eigenvector matrices, both answers of the column-sign test)
         t += [(S, "density", dict(kind=k, flip=False)), (S, "density", dict(kind=k, flip=True)), (S, "density", dict(kind=k, norb=4, nocc=2, flip=True))]
+    t += [(S, "writeback", dict(kind="rhf")), (S, "writeback", dict(kind="uhf", flip=True))]      # what optimize() hands back as the new trial orbitals
     t += [("contracts.allsizes", "fock_allsizes", dict(kind="uhf")), ("contracts.allsizes", "fock_allsizes", dict(kind="rhf"))]      # ALL sizes (tensor normal form)
     if tier == "thorough":
         t += [(S, "fock", dict(kind="uhf", norb=4, nchol=3)), (S, "fock", dict(kind="rhf", norb=4, nchol=3))]
